@@ -9,7 +9,7 @@
    crashes. [reports ... f ms] are the matches among ms that a rule with filter f reports. *)
 From Coq Require Import List ZArith Bool String Lia.
 From RG.Base Require Import Outcome.
-From RG.Filters Require Import FilterIR FilterAlgebra LoaderState ValueSources.
+From RG.Filters Require Import FilterIR FilterAlgebra LoaderState ValueSources FilterChains.
 From RGW Require Import Gen_FilterTables Inst_C17.
 Import ListNotations.
 Local Open Scope string_scope.
@@ -49,6 +49,57 @@ Proof. exact (or_union gen_combinators gen_combinators_ok). Qed.
 Print Assumptions C17_or_union.
 
 (* short circuit: no hypothesis on g -- it may reject, accept or panic, it is not consulted *)
+(* ---------------------------------------------------------------- chains: F || G || H ..., F && G && H ... of any length and grouping *)
+(* an ||-tree means the sequence of its leaves, left to right, up to the first one that accepts or panics -- all operands *)
+Theorem C17_or_tree_is_sequence : forall E f, eval_gen E f = seq_or gen_combinators E (or_leaves f).
+Proof. exact (or_tree_is_sequence gen_combinators gen_combinators_ok). Qed.
+Print Assumptions C17_or_tree_is_sequence.
+
+Theorem C17_and_tree_is_sequence : forall E f, eval_gen E f = seq_and gen_combinators E (and_leaves f).
+Proof. exact (and_tree_is_sequence gen_combinators gen_combinators_ok). Qed.
+Print Assumptions C17_and_tree_is_sequence.
+
+Theorem C17_or_chain_union : forall E fs vs, Forall2 (fun f v => eval_gen E f = Ok v) fs vs ->
+  seq_or gen_combinators E fs = Ok (existsb (fun v => v) vs).
+Proof. exact (or_chain_union gen_combinators). Qed.
+Print Assumptions C17_or_chain_union.
+
+Theorem C17_and_chain_intersection : forall E fs vs, Forall2 (fun f v => eval_gen E f = Ok v) fs vs ->
+  seq_and gen_combinators E fs = Ok (forallb (fun v => v) vs).
+Proof. exact (and_chain_intersection gen_combinators). Qed.
+Print Assumptions C17_and_chain_intersection.
+
+Theorem C17_or_chain_short_circuit : forall E pre f post,
+  Forall (fun g => eval_gen E g = Ok false) pre -> eval_gen E f = Ok true -> seq_or gen_combinators E (pre ++ f :: post)%list = Ok true.
+Proof. exact (or_chain_short_circuit gen_combinators). Qed.
+Print Assumptions C17_or_chain_short_circuit.
+
+Theorem C17_and_chain_short_circuit : forall E pre f post,
+  Forall (fun g => eval_gen E g = Ok true) pre -> eval_gen E f = Ok false -> seq_and gen_combinators E (pre ++ f :: post)%list = Ok false.
+Proof. exact (and_chain_short_circuit gen_combinators). Qed.
+Print Assumptions C17_and_chain_short_circuit.
+
+(* a chain of Text == c leaves may be folded into one set test exactly when all leaves read ONE capture ... *)
+Theorem C17_text_set_sound_one_var : forall E x t cs, m_str E true x = Ok (Known t) -> cs <> [] ->
+  seq_or gen_combinators E (map (fun c => text_eq_leaf (x, c)) cs) = text_in_set E x cs.
+Proof. exact (text_set_sound_one_var gen_combinators). Qed.
+Print Assumptions C17_text_set_sound_one_var.
+
+Theorem C17_text_notin_sound_one_var : forall E x t cs, m_str E true x = Ok (Known t) -> cs <> [] ->
+  seq_and gen_combinators E (map (fun c => text_neq_leaf (x, c)) cs) = text_notin_set E x cs.
+Proof. exact (text_notin_sound_one_var gen_combinators). Qed.
+Print Assumptions C17_text_notin_sound_one_var.
+
+(* ... and remembering the first leaf's capture only is refuted: x == "a" || y == "b" || x == "c" with x = "q", y = "b" *)
+Theorem C17_text_set_first_var_refuted :
+  let ps := [("x", "a"); ("y", "b"); ("x", "c")] in
+  seq_or spec_combinators demo_env (map text_eq_leaf ps) = Ok true /\
+  text_in_set demo_env (first_var ps) (map snd ps) = Ok false /\
+  seq_and spec_combinators demo_env (map text_neq_leaf ps) = Ok false /\
+  text_notin_set demo_env (first_var ps) (map snd ps) = Ok true.
+Proof. exact text_set_first_var_refuted. Qed.
+Print Assumptions C17_text_set_first_var_refuted.
+
 Theorem C17_and_short_circuit : forall E f g, eval_gen E f = Ok false -> eval_gen E (LAnd f g) = Ok false.
 Proof. exact (and_short_circuit gen_combinators gen_combinators_ok). Qed.
 Print Assumptions C17_and_short_circuit.
